@@ -336,6 +336,13 @@ func ruleR062(c *Ctx) {
 							return true
 						}
 					}
+					// created by a private constructor whose body is `return &List{...}`
+					if call, ok := ast.Unparen(as.Rhs[i]).(*ast.CallExpr); ok {
+						if cl, _ := c.ctorLiteral(info, call); cl != nil && namedOf(info.TypeOf(cl)) != nil && namedOf(info.TypeOf(cl)).Obj() == listType && !c.escapesBefore(info, fn, info.ObjectOf(id), sel) {
+							c.OK(key, sel.Pos(), "%s of a field of a list that was just created (by a private constructor) and is not shared yet", kind)
+							return true
+						}
+					}
 				}
 			}
 			if held(sel) {
